@@ -260,6 +260,8 @@ def check_cache(L, f, elem, role_of):
     if not ok_item:
         return
     tys = elem_types(L, f, item)
+    if not tys:
+        raise AnalysisError("%s: the class of the enumerated items could not be inferred" % q)
     ctx.check("lookup/producer", "%s enumerates %s" % (q, elem.name), tys == [elem.name], f, "%s cache items" % f.name,
               "%s fills its cache with %s objects; the API looks up %s" % (q, tys or "untyped", elem.name), node=inner,
               detail="for %s in %s  (%s)" % (item, ast.unparse(inner.iter)[:50], elem.name))
@@ -385,6 +387,8 @@ def check_scan(L, f, elem, role_of, want_list):
         it_expr = g.iter
     else:
         raise AnalysisError("%s: not a single scan loop (shape outside the fragment)" % q)
+    if not tys:
+        raise AnalysisError("%s: the class of the scanned items could not be inferred" % q)
     ctx.check("lookup/scan", "%s scans %s" % (q, elem.name), tys == [elem.name], f, "%s scanned items" % f.name,
               "%s scans %s objects (%s); the API returns %s" % (q, tys or "untyped", ast.unparse(it_expr)[:50], elem.name),
               detail="for %s in %s (%s)" % (var, ast.unparse(it_expr)[:50], elem.name))
@@ -435,6 +439,8 @@ def check_regex(L, f, elem, role_of):
     lp = loops[0]
     var = lp.target.id
     tys = elem_types(L, f, var)
+    if not tys:
+        raise AnalysisError("%s: the class of the scanned items could not be inferred" % q)
     ctx.check("lookup/scan", "%s scans %s" % (q, elem.name), tys == [elem.name], f, "%s scanned items" % f.name,
               "%s scans %s objects; the API returns %s" % (q, tys or "untyped", elem.name))
     body = [s for s in lp.body if not (isinstance(s, ast.Expr) and isinstance(s.value, ast.Constant))]
